@@ -173,7 +173,7 @@ static void case_q(Rng& r) {
     uniform_k = k2 == k;
     S other(K::make(k2, hra));
     for (uint64_t i = 0; i < n2; ++i) other.update(Item<T>::gen(r));
-    if (r.chance(0.3)) (void)other.get_quantile(0.5);   // a query in between sorts level 0 / the base buffer
+    if (r.chance(0.3) && !other.is_empty()) (void)other.get_quantile(0.5);   // a query in between sorts level 0 / the base buffer
     if (r.coin()) sk->merge(other); else { other.merge(*sk); *sk = other; }
     n = n1 + n2;
   }
